@@ -190,3 +190,51 @@ Example c07_example_concat_limit :
   const_str_value (CCat (CLeaf (repeat 97 101%nat)) (CLeaf [])) = (repeat 97 101%nat, false) /\
   maybe_val (CCat (CCat (CLeaf (repeat 97 101%nat)) (CLeaf [])) (CLeaf [98])) = [98].
 Proof. vm_compute. repeat split. Qed.
+
+(* the examples of the macro documentation ("Metric Names" in metrique-macro/src/lib.rs, "Add a prefix to all
+   metrics in a subfield" in metrique/README.md, metrique/tests/enum_tag.rs), names only *)
+Definition names_of (its : list item) : list bytes :=
+  flat_map (fun it => match it with IValue n _ _ => [n] | ITimestamp _ => [] end) its.
+Definition sub_ducks : edef :=
+  EStruct Preserve None
+    (FCons (bs "request_latency") (KField None None false (LNum (OF 0) 4))
+    (FCons (bs "number_of_ducks") (KField (Some (bs "NDucks")) None false (LNum (OU 0) 0)) FNil)).
+Definition run_names (d : edef) : list bytes := names_of (root_write to_pascal_case to_snake_case to_kebab_case true d).
+Definition spec_names (d : edef) : list bytes :=
+  flat_map (fun it => match it with SValue n _ => [n] | STimestamp _ => [] end)
+           (spec_items to_pascal_case to_snake_case to_kebab_case d).
+
+Example c07_example_macro_docs :
+  (* 1. flatten exact_prefix "API:" / prefix "alt" under kebab-case *)
+  (let d := EStruct Kebab None
+      (FCons (bs "api") (KFlatten (Some (PExact (bs "API:"))) Plain sub_ducks)
+      (FCons (bs "alt") (KFlatten (Some (PInfl (bs "alt"))) Plain sub_ducks) FNil)) in
+   run_names d = [bs "API:request-latency"; bs "API:NDucks"; bs "alt-request-latency"; bs "alt-NDucks"]
+   /\ spec_names d = run_names d) /\
+  (* 2. container prefix "Foo-" under kebab-case does not reach flattened or named fields *)
+  (let d := EStruct Kebab (Some (PInfl (bs "Foo-")))
+      (FCons (bs "sub") (KFlatten None Plain
+           (EStruct Preserve None (FCons (bs "request_latency") (KField None None false (LNum (OF 0) 4)) FNil)))
+      (FCons (bs "number_of_ducks") (KField (Some (bs "n-ducks")) None false (LNum (OU 0) 0))
+      (FCons (bs "number_of_geese") (KField None None false (LNum (OU 0) 0)) FNil))) in
+   run_names d = [bs "request-latency"; bs "n-ducks"; bs "foo-number-of-geese"] /\ spec_names d = run_names d) /\
+  (* 3. "waterfowl_NDucks" *)
+  (let d := EStruct Snake None
+      (FCons (bs "waterfowl") (KFlatten (Some (PInfl (bs "Waterfowl_"))) Plain
+           (EStruct Preserve None (FCons (bs "number_of_ducks") (KField (Some (bs "NDucks")) None false (LNum (OU 0) 0)) FNil))) FNil) in
+   run_names d = [bs "waterfowl_NDucks"] /\ spec_names d = run_names d) /\
+  (* 4. README: prefix = "Downstream" + success in the four styles *)
+  (let d := fun ra => EStruct ra None
+      (FCons (bs "success") (KField None None false (LNum (OU 1) 0))
+      (FCons (bs "downstream") (KFlatten (Some (PInfl (bs "Downstream"))) Plain
+           (EStruct Preserve None (FCons (bs "success") (KField None None false (LNum (OU 1) 0)) FNil))) FNil)) in
+   map (fun ra => run_names (d ra)) [Preserve; Pascal; Kebab; Snake]
+   = [[bs "success"; bs "Downstreamsuccess"]; [bs "Success"; bs "DownstreamSuccess"];
+      [bs "success"; bs "downstream-success"]; [bs "success"; bs "downstream_success"]]
+   /\ map (fun ra => spec_names (d ra)) [Preserve; Pascal; Kebab; Snake] = map (fun ra => run_names (d ra)) [Preserve; Pascal; Kebab; Snake]) /\
+  (* 5. tests/enum_tag.rs: tag(name_exact = "op") / tag(name = "op"), prefix = "api_", snake_case *)
+  (let d := fun exact => EEnum Snake (Some (PInfl (bs "api_"))) (Some (Tag exact (bs "op") false))
+      (VCons (bs "ReadData") None (DStruct (FCons (bs "count") (KField None None false (LNum (OU 42) 0)) FNil)) VNil) 0 in
+   run_names (d true) = [bs "op"; bs "api_count"] /\ run_names (d false) = [bs "api_op"; bs "api_count"]
+   /\ spec_names (d true) = run_names (d true) /\ spec_names (d false) = run_names (d false)).
+Proof. vm_compute. repeat split. Qed.
